@@ -42,6 +42,24 @@ for f in sorted(os.listdir(os.path.join(V, 'kani'))):
             sys.exit(1)
         idx[name] = dict(prop='C' + m.group(3), tier=tier, kind=kind, bound=bound, file=f,
                          expect='known-finding' if re.match(r'c\d\d_kf_', name) else None)
+# measured verdicts/timings (./verif expect-update): a harness that did not close there is not registered;
+# one that needs more than QUICK_MAX seconds of CBMC is moved to the thorough tier whatever its comment says.
+QUICK_MAX = 120
+ep = os.path.join(V, 'lib', 'expected.json')
+exp = json.load(open(ep)) if os.path.exists(ep) else {}
+dropped = []
+if '--all' not in sys.argv:
+    for name in list(idx):
+        e = exp.get(name)
+        if e is None:
+            dropped.append(name)
+            del idx[name]
+            continue
+        if e.get('seconds', 0) > QUICK_MAX and idx[name]['tier'] == 'quick':
+            idx[name]['tier'] = 'thorough'
+        idx[name]['seconds'] = e.get('seconds')
+if dropped:
+    print('not registered (no closing run recorded in expected.json):', ', '.join(sorted(dropped)), file=sys.stderr)
 json.dump(idx, open(os.path.join(V, 'lib', 'harness_index.json'), 'w'), indent=1, sort_keys=True)
 byp = {}
 for k, v in idx.items():
